@@ -552,6 +552,11 @@ fn run_byz_encoder(plan: &Plan, lib: &dyn Lib, rec: &mut Rec) {
                 rec.expect("C16", "invalid-share-payload-reported-at-use", !o.is_ok(), || format!("{} SignCryptDecryptionKey::from_shares | invalid payload combined", what));
                 let o = rec.call(lib, g, Op::DShareVerify, &[&fd, &d.pk_shares[victim], &ct]);
                 rec.expect("C16", "invalid-share-payload-reported-at-use", !o.is_ok(), || format!("{} SignDecryptionShare::verify | invalid payload verified", what));
+                // ... and decrypting directly with the shares (the recombination happens inside): nothing may come out
+                let mut da: Vec<&[u8]> = vec![&ct];
+                da.extend((0..3).map(|i| if i == victim { fd.as_slice() } else { ds[i].as_slice() }));
+                let o = rec.call(lib, g, Op::ScDecryptShares, &da);
+                rec.expect("C16", "invalid-share-payload-reported-at-use", !matches!(o.opt_value(), Some(Some(_))), || format!("{} SignCryptCiphertext::decrypt_with_shares | a share payload that is not a subgroup point was used and a plaintext came out: {:?}", what, o.kind()));
                 let o = rec.call(lib, g, Op::DShareVerify, &[&ds[victim], &f, &ct]);
                 rec.expect("C16", "invalid-share-payload-reported-at-use", !o.is_ok(), || format!("{} SignDecryptionShare::verify | invalid public-key share accepted", what));
                 let fe = forge(&es[victim]);
